@@ -3,7 +3,7 @@
 //! Random histories over users, groups, OAuth2 clients and entry managers with reference edits
 //! (also to missing / recycled targets), deletes, revives and purges on a real server; after EVERY
 //! op the harness scans every live entry: each uuid found in the on-disk encoding of any attribute
-//! whose *stored* schema entry has a reference-bearing syntax must belong to a live entry.
+//! that the schema in force types with a reference-bearing syntax must belong to a live entry.
 //! Second sub-check: two replicas, where one side may delete what the other references.
 use proptest::prelude::*;
 use serde::{Deserialize, Serialize};
@@ -26,9 +26,9 @@ struct RCase {
 
 fn weights() -> Weights {
     Weights {
-        create: 10,
-        member: 12,
-        manager: 6,
+        create: 6,
+        member: 26,
+        manager: 10,
         oauth2: 6,
         dyngroup: 1,
         delete: 9,
@@ -80,7 +80,7 @@ fn single(rt: &tokio::runtime::Runtime, c: &Case) -> Outcome {
     rt.block_on(async {
         let mut node = Node::new().await;
         let first = gi::read_all(&node).await;
-        let ref_attrs = gi::ref_attrs_of(&gi::stored_schema(&first));
+        let ref_attrs = gi::ref_attrs_of_node(&node, &first).await;
         if !(ref_attrs.contains("member") && ref_attrs.contains("oauth2_rs_scope_map") && ref_attrs.contains("entry_managed_by")) {
             panic!("harness: stored schema does not type member/scope map/entry_managed_by as references: {ref_attrs:?}");
         }
@@ -97,6 +97,9 @@ fn single(rt: &tokio::runtime::Runtime, c: &Case) -> Outcome {
             let written = refs_written(a.op);
             let bad: Vec<_> = written.iter().filter(|r| !live_before.contains(&r.uuid())).collect();
             if !bad.is_empty() && !a.committed() {
+                if bad.iter().any(|r| status_before(r.uuid()) == Some(Status::Recycled)) && written.iter().any(|r| live_before.contains(&r.uuid())) {
+                    classes.insert("refused:mixed-live-and-recycled-refs");
+                }
                 for r in &bad {
                     match status_before(r.uuid()) {
                         None => classes.insert("refused:ref-to-absent"),
@@ -109,12 +112,20 @@ fn single(rt: &tokio::runtime::Runtime, c: &Case) -> Outcome {
             if a.committed() {
                 match a.op {
                     Op::Delete { t } if live_before.contains(&t.uuid()) => {
-                        let holders = gi::holders_of(a.before, t.uuid(), &ref_attrs);
+                        // holders among the generated population only (every person is a dynmember of
+                        // the built-in idm_all_persons / idm_all_accounts)
+                        let holders: Vec<_> = gi::holders_of(a.before, t.uuid(), &ref_attrs)
+                            .into_iter()
+                            .filter(|h| h.as_u128() >> 112 == 0xAAAA)
+                            .collect();
                         deleted_ever.insert(t.uuid());
                         classes.insert("delete-of-live-entry");
+                        if !holders.is_empty() {
+                            classes.insert("delete-of-referenced-entry");
+                            nontrivial = true;
+                        }
                         if holders.len() >= 2 {
                             classes.insert("delete-of-entry-referenced-by>=2");
-                            nontrivial = true;
                         }
                     }
                     Op::Revive { t } if status_before(t.uuid()) == Some(Status::Recycled) => {
@@ -162,7 +173,7 @@ fn replicated(rt: &tokio::runtime::Runtime, c: &RCase) -> Outcome {
     rt.block_on(async {
         let mut cl = Cluster::new(2).await;
         let first = gi::read_all(&cl.nodes[0]).await;
-        let ref_attrs = gi::ref_attrs_of(&gi::stored_schema(&first));
+        let ref_attrs = gi::ref_attrs_of_node(&cl.nodes[0], &first).await;
         let mut applied = 0;
         let mut deletes = 0;
         for (i, s) in c.steps.iter().enumerate() {
@@ -207,14 +218,14 @@ fn main() {
     let cx = Check::from_args("C16", "exploration");
     cx.rule(
         "random op histories (population prefix + member add/remove/set incl. missing targets, entry managers, OAuth2 clients with scope maps, deletes, revives, purge_recycled/purge_tombstones with clock steps around the retention window) on a real in-memory server; \
-         after EVERY op every live entry is scanned: each uuid in the on-disk encoding of an attribute whose stored schema ENTRY has syntax ReferenceUuid/OauthScopeMap/OauthClaimMap must be the uuid of a live entry; rejected ops must leave the dump unchanged. \
+         after EVERY op every live entry is scanned: each uuid in the on-disk encoding of an attribute of syntax ReferenceUuid/OauthScopeMap/OauthClaimMap (read from the loaded schema's attribute table, not from the plugin's reference cache) must be the uuid of a live entry; rejected ops must leave the dump unchanged. \
          second sub-check: 2 replicas with random incremental replication, scanned after every applied change. \
-         non-trivial = a live entry was deleted while >= 2 other live entries referenced it (replicated: a change set was applied in a history with deletes); distinct by hash of the history",
+         non-trivial = a live entry was deleted while at least one other generated live entry referenced it through member / entry_managed_by / scope map (class for >= 2 holders) (replicated: a change set was applied in a history with deletes); distinct by hash of the history",
     );
     cx.assume("references held by recycled/tombstone/conflict entries are outside the property (only live holders are scanned)");
     let w = weights();
-    let n = cx.tier.pick(400, 10_000);
-    let len = cx.tier.pick(12..45usize, 20..120usize);
+    let n = cx.tier.pick(360, 10_000);
+    let len = cx.tier.pick(20..60usize, 30..140usize);
     cx.prop(
         "single-server-histories",
         PropCfg::new(n).shrink(300),
@@ -231,9 +242,11 @@ fn main() {
         srv::runtime,
         |rt, c| replicated(rt, c),
     );
-    cx.require_class("delete-of-entry-referenced-by>=2", 30);
+    cx.require_class("delete-of-referenced-entry", 80);
+    cx.require_class("delete-of-entry-referenced-by>=2", 10);
     cx.require_class("refused:ref-to-absent", 30);
     cx.require_class("refused:ref-to-recycled", 10);
+    cx.require_class("refused:mixed-live-and-recycled-refs", 5);
     cx.require_class("revive-of-recycled", 20);
     cx.require_class("replicated-change-applied", 20);
     cx.finish();
